@@ -169,14 +169,9 @@ def rules(ctx: Ctx) -> None:
     # ---- R14.5 both mechanisms (environment, scoped override) reach the reader: look-up order of the loader (= R15.6)
     from dataclasses import replace
 
-    from . import c15
+    from .common import import_rules as _imp14
 
-    sub = Ctx(ctx.pid, ctx.tier, ctx.prog, ctx.repo)
-    c15.rules(sub)
-    for o in sub.obligations:
-        if o.rule == "R15.6":
-            ctx.obligations.append(replace(o, rule="R14.5"))
-    ctx.analysed_functions |= {q for q in sub.analysed_functions if "__getattr__" in q}
+    _imp14(ctx, "C15", {"R15.6": "R14.5"})
 
     # ---- R14.4 fallback chain in Schema.__init__ -------------------------------------------
     sinit = Schema.methods.get("__init__")
